@@ -42,7 +42,13 @@ class DiscreteCurve(PointCurveBase):
 
     def get_length(self, param_from: Optional[float] = None, param_to: Optional[float] = None) -> float:
         """Returns the length of this curve between specified params."""
-        return f.polyline_length(self.discretize(param_from, param_to))
+        points = self.discretize(param_from, param_to)
+
+        if len(points) < 2:
+            # both parameters address the same point
+            return 0.0
+
+        return f.polyline_length(points)
 
     def get_closest_param(self, point: PointType) -> float:
         """Returns the index of point on this curve where distance to supplied
